@@ -4,18 +4,18 @@ import OtelVerif.Model.Propagator
 namespace Driver
 open Otel Otel.Propagation
 
-def showFault : Fault → String
+def c15ShowFault : IxFault → String
   | .oob => "FAULT oob"
   | .ub => "FAULT ub"
   | .fuel => "FAULT fuel"
 
 /-- `bg <op> ; <op> ; …` over a growing family of baggages (state 0 = the empty baggage).
     ops: `from <hdr>` | `set <i> <k> <v>` | `del <i> <k>` | `get <i> <k>` | `hdr <i>` | `rt <i>` | `enc <s>` | `dec <s>` -/
-def bgOp (states : Array Baggage.Entries) : List String → Array Baggage.Entries × String
+def c15BgOp (states : Array Baggage.Entries) : List String → Array Baggage.Entries × String
   | ["from", h] => match ofHexStr h with
     | some h => match Baggage.fromHeader h with
       | .ok e => (states.push e, showEntries e)
-      | .fault f => (states.push [], showFault f)
+      | .fault f => (states.push [], c15ShowFault f)
     | none => (states, "bad-op")
   | ["set", i, k, v] => match i.toNat?, ofHexStr k, ofHexStr v with
     | some i, some k, some v => match states[i]? with
@@ -41,7 +41,7 @@ def bgOp (states : Array Baggage.Entries) : List String → Array Baggage.Entrie
     | some i => match states[i]? with
       | some s => match Baggage.fromHeader (Baggage.toHeader s) with
         | .ok e => (states.push e, showEntries e)
-        | .fault f => (states.push [], showFault f)
+        | .fault f => (states.push [], c15ShowFault f)
       | none => (states, "bad-op")
     | none => (states, "bad-op")
   | ["enc", s] => match ofHexStr s with
@@ -51,16 +51,16 @@ def bgOp (states : Array Baggage.Entries) : List String → Array Baggage.Entrie
     | some s => (states, match Baggage.urlDecode s with
       | .ok none => "err"
       | .ok (some d) => "d=" ++ hexArg d
-      | .fault f => showFault f)
+      | .fault f => c15ShowFault f)
     | none => (states, "bad-op")
   | _ => (states, "bad-op")
 
 def handleBg (toks : List String) : String :=
   let ops := splitOps toks
-  let (_, outs) := ops.foldl (fun (st, outs) op => let (st', o) := bgOp st op; (st', o :: outs)) (#[[]], [])
+  let (_, outs) := ops.foldl (fun (st, outs) op => let (st', o) := c15BgOp st op; (st', o :: outs)) (#[[]], [])
   " ; ".intercalate outs.reverse
 
-def propByName : String → Option (Propagator RCtx Carrier)
+def c15PropByName : String → Option (Propagator RCtx Carrier)
   | "w3c" => some w3c
   | "b3s" => some b3Single
   | "b3m" => some b3Multi
@@ -68,19 +68,19 @@ def propByName : String → Option (Propagator RCtx Carrier)
   | "bag" => some Propagation.baggage
   | _ => none
 
-def parsePlist (s : String) : Option (List (Propagator RCtx Carrier)) :=
-  if s = "-" then some [] else (s.splitOn ",").mapM propByName
+def c15ParsePlist (s : String) : Option (List (Propagator RCtx Carrier)) :=
+  if s = "-" then some [] else (s.splitOn ",").mapM c15PropByName
 
-def knownNames : List Bytes :=
+def c15KnownNames : List Bytes :=
   [Gen.baggageHeader, Gen.b3CombinedHeader, traceparentName, tracestateName, Gen.jaegerHeader,
    Gen.b3TraceIdHeader, Gen.b3SpanIdHeader, Gen.b3SampledHeader]
 
-def showCarrier (c : Carrier) : String :=
-  let known := knownNames.filterMap fun n => (c.find? (·.1 == n)).map fun e => toHexStr n ++ ":" ++ hexArg e.2
-  let extra := c.filter fun e => !knownNames.contains e.1
+def c15ShowCarrier (c : Carrier) : String :=
+  let known := c15KnownNames.filterMap fun n => (c.find? (·.1 == n)).map fun e => toHexStr n ++ ":" ++ hexArg e.2
+  let extra := c.filter fun e => !c15KnownNames.contains e.1
   "[" ++ ",".intercalate known ++ "]" ++ (if extra.isEmpty then "" else s!" extra={extra.length}")
 
-def mkPCtx (tid sid fl ts bag : String) : Option (Res PCtx) :=
+def c15MkPCtx (tid sid fl ts bag : String) : Option (IxRes PCtx) :=
   match ofHexStr ts, ofHexStr bag with
   | some ts, some bag =>
     let span? : Option (Option TraceContext.SpanCtx) :=
@@ -97,9 +97,9 @@ def mkPCtx (tid sid fl ts bag : String) : Option (Res PCtx) :=
       else some ((Baggage.fromHeader bag).bind fun es => .ok { span := span, baggage := some es })
   | _, _ => none
 
-def showRCtx (input : RCtx) (r : RCtx) : String :=
+def c15ShowRCtx (input : RCtx) (r : RCtx) : String :=
   match r with
-  | .fault f => showFault f
+  | .fault f => c15ShowFault f
   | .ok ctx =>
     let same := match input with
       | .ok i => decide (i = ctx)
@@ -111,22 +111,22 @@ def showRCtx (input : RCtx) (r : RCtx) : String :=
 def handleComp : List String → String
   | [op, pl, tid, sid, fl, ts, bag] =>
     if op ≠ "inject" ∧ op ≠ "rt" then "bad-op" else
-    match parsePlist pl, mkPCtx tid sid fl ts bag with
+    match c15ParsePlist pl, c15MkPCtx tid sid fl ts bag with
     | some ps, some ctx =>
       let comp := composite emptyCtx ps
       let car := comp.inject [] ctx
-      if op = "inject" then showCarrier car ++ " parts=" ++ showCarrier (ps.foldl (fun c p => p.inject c ctx) [])
-      else showRCtx emptyCtx (comp.extract car emptyCtx) ++ " parts=" ++
-        showRCtx emptyCtx (ps.foldl (fun c p => p.extract car c) emptyCtx)
+      if op = "inject" then c15ShowCarrier car ++ " parts=" ++ c15ShowCarrier (ps.foldl (fun c p => p.inject c ctx) [])
+      else c15ShowRCtx emptyCtx (comp.extract car emptyCtx) ++ " parts=" ++
+        c15ShowRCtx emptyCtx (ps.foldl (fun c p => p.extract car c) emptyCtx)
     | _, _ => "bad-op"
   | ["extract", pl, tp, ts, b3, xt, xs, xf, ub, bg] =>
-    match parsePlist pl, [tp, ts, b3, xt, xs, xf, ub, bg].mapM ofHexStr with
+    match c15ParsePlist pl, [tp, ts, b3, xt, xs, xf, ub, bg].mapM ofHexStr with
     | some ps, some [tpv, tsv, b3v, xtv, xsv, xfv, ubv, bgv] =>
       let names := [traceparentName, tracestateName, Gen.b3CombinedHeader, Gen.b3TraceIdHeader, Gen.b3SpanIdHeader,
         Gen.b3SampledHeader, Gen.jaegerHeader, Gen.baggageHeader]
       let car : Carrier := (names.zip [tpv, tsv, b3v, xtv, xsv, xfv, ubv, bgv]).filter fun e => !e.2.isEmpty
-      showRCtx emptyCtx ((composite emptyCtx ps).extract car emptyCtx) ++ " parts=" ++
-        showRCtx emptyCtx (ps.foldl (fun c p => p.extract car c) emptyCtx)
+      c15ShowRCtx emptyCtx ((composite emptyCtx ps).extract car emptyCtx) ++ " parts=" ++
+        c15ShowRCtx emptyCtx (ps.foldl (fun c p => p.extract car c) emptyCtx)
     | _, _ => "bad-op"
   | _ => "bad-op"
 
